@@ -327,7 +327,12 @@ def end_to_end(ctx, world, rng, quick) -> None:
             seed = ctx.seed * 100 + trial
             centers = data.centers_grid(npatch, sep_deg=3.0)
             n = 80 if quick else 200
-            ref = data.make_catalog(root / f"ref{trial}", data.frame(seed, n, npatch, sep_deg=3.0, spread_deg=1.6), centers)
+            fref = data.frame(seed, n, npatch, sep_deg=3.0, spread_deg=1.6)
+            if trial % 2 == 1:
+                # a patch without any object in the upper half of the redshift range (an empty tree next to populated ones)
+                sel = (fref["pid"] == npatch - 1) & (fref["z"] > 0.55)
+                fref.loc[sel, "z"] = 0.15 + 0.4 * (fref.loc[sel, "z"] - 0.55)
+            ref = data.make_catalog(root / f"ref{trial}", fref, centers)
             unk = data.make_catalog(root / f"unk{trial}", data.frame(seed + 1, n, npatch, sep_deg=3.0, spread_deg=1.6), centers,
                                     redshifts=False)
             rnd = data.make_catalog(root / f"rnd{trial}", data.frame(seed + 2, 2 * n, npatch, sep_deg=3.0, spread_deg=1.6), centers)
@@ -341,7 +346,35 @@ def end_to_end(ctx, world, rng, quick) -> None:
                 (cfs[label],) = yaw.crosscorrelate(config, ref, unk, max_workers=1, **kw)
             (auto_rr,) = yaw.autocorrelate(config, ref, rnd, count_rr=True, max_workers=1)
             (auto_dp,) = yaw.autocorrelate(config, ref, rnd, count_rr=False, max_workers=1)
+            # "the two samples' total weights": per bin and patch, from the records of the catalogs themselves
+            edges = np.asarray(config.binning.edges)
+            own = {}
+            for cname, cat_ in (("ref", ref), ("unk", unk), ("rnd", rnd), ("urnd", urnd)):
+                tot = np.zeros((len(edges) - 1, npatch))
+                for pid, patch in cat_.items():
+                    d = patch.load_data()
+                    if "redshifts" in d.dtype.names:
+                        idx = np.digitize(d["redshifts"], edges, right=True)      # closed = right
+                        for b in range(1, len(edges)):
+                            tot[b - 1, int(pid)] = d["weights"][idx == b].sum()
+                    else:
+                        tot[:, int(pid)] = d["weights"].sum()
+                own[cname] = tot
+            roles = {("cross", "dd"): ("ref", "unk"), ("cross", "dr"): ("ref", "urnd"), ("cross", "rd"): ("rnd", "unk"), ("cross", "rr"): ("rnd", "urnd"),
+                     ("auto", "dd"): ("ref", "ref"), ("auto", "dr"): ("ref", "rnd"), ("auto", "rr"): ("rnd", "rnd")}
             for label, cf in list(cfs.items()) + [("auto dr+rr", auto_rr), ("auto dr", auto_dp)]:
+                for m in ("dd", "dr", "rd", "rr"):
+                    member = getattr(cf, m)
+                    if member is None:
+                        continue
+                    r1, r2 = roles[("auto" if label.startswith("auto") else "cross", m)]
+                    ctx.evaluated(1, ("e2e-sumw", trial, label, m))
+                    for which, got, want in (("sum_weights1", member.sum_weights.sum_weights1, own[r1]), ("sum_weights2", member.sum_weights.sum_weights2, own[r2])):
+                        if got.shape != want.shape or not np.allclose(got, want, rtol=1e-12, atol=1e-12):
+                            ctx.violation(f"C04|NormalisedCounts.sum_weights|measured:{m}|{which}_is_not_the_samples_total_weight",
+                                          dict(trial=trial, seed=seed, members=label, got=np.asarray(got).tolist(), expected=want.tolist(),
+                                               empty_patch_bin=bool(trial % 2)))
+                            break
                 mem = "+".join(m for m in ("dd", "dr", "rd", "rr") if getattr(cf, m) is not None)
                 arg = mem
                 combos.append(arg)
